@@ -251,6 +251,26 @@ func (e *C14) Run(c *core.Ctx, idx int) {
 		data = append(data, "</rdf:Bag></dc:subject></rdf:Description></rdf:RDF></x:xmpmeta>"...)
 		desc, fi = fmt.Sprintf("tiles xmp unit=%q n=260000 len=%d in=%q", "<:>x", len(data), "<dc:subject><rdf:Bag>"), -2
 	}
+	if idx == 4323 || idx == 4324 {
+		// two per-unit costs that only a particular XMP tile shows, in every run (the random tiles
+		// draw them in most runs, not in all): identifier values made of separators, and an array of
+		// short items under a date property
+		head := "<x:xmpmeta xmlns:x='adobe:ns:meta/'><rdf:RDF xmlns:rdf='http://www.w3.org/1999/02/22-rdf-syntax-ns#'><rdf:Description rdf:about='' xmlns:xmpMM='http://ns.adobe.com/xap/1.0/mm/' xmlns:xmp='http://ns.adobe.com/xap/1.0/'>"
+		tail := "</rdf:Description></rdf:RDF></x:xmpmeta>"
+		var body []byte
+		unit := ""
+		if idx == 4323 {
+			unit = "<xmpMM:InstanceID>" + strings.Repeat(":", 1400) + "</xmpMM:InstanceID>"
+			body = bytes.Repeat([]byte(unit), 600)
+			unit = "<xmpMM:InstanceID>:::(1400)</xmpMM:InstanceID>"
+		} else {
+			unit = "<rdf:li>2:</rdf:li>"
+			body = append([]byte("<xmp:CreateDate><rdf:Seq>"), bytes.Repeat([]byte(unit), 40000)...)
+			body = append(body, "</rdf:Seq></xmp:CreateDate>"...)
+		}
+		data = append(append([]byte(head), body...), tail...)
+		desc, fi = fmt.Sprintf("tiles xmp (fixed case) unit=%q len=%d", unit, len(data)), -2
+	}
 	if idx%12 == 5 {
 		// one tiny unit tiled to hundreds of kilobytes: what is allocated per unit adds up against
 		// 16 bytes per input byte (the 4 MiB constant hides it in small inputs)
